@@ -102,6 +102,10 @@ func (s *streamWS) RecvMsg(m interface{}) error {
 				// The client ended the stream normally.
 				return io.EOF
 			}
+			if err == io.EOF {
+				// The connection ended without a close frame.
+				return io.ErrUnexpectedEOF
+			}
 			return err
 		}
 		if len(b) > s.opts.maxReceiveMessageSize {
